@@ -19,8 +19,8 @@ MANIFEST = {
 }
 
 BOUNDS = {
-    'quick': {'identity': [(1, 3), (2, 3), (3, 3), (4, 2), (4, 3)], 'symmetry': [(3, 2), (3, 3)], 'corollaries': [(3, 3), (4, 2)]},
-    'thorough': {'identity': [(1, 4), (2, 4), (3, 4), (4, 4), (5, 3), (6, 2)], 'symmetry': [(3, 3), (4, 2)], 'corollaries': [(4, 3), (5, 2)]},
+    'quick': {'sparse-codes': [(3, 3)], 'identity': [(1, 3), (2, 3), (3, 3), (4, 2), (4, 3)], 'symmetry': [(3, 2), (3, 3)], 'corollaries': [(3, 3), (4, 2)]},
+    'thorough': {'sparse-codes': [(3, 3), (4, 3)], 'identity': [(1, 4), (2, 4), (3, 4), (4, 4), (5, 3), (6, 2)], 'symmetry': [(3, 3), (4, 2)], 'corollaries': [(4, 3), (5, 2)]},
 }
 
 INFO = {
@@ -38,6 +38,9 @@ INFO = {
 }
 
 
+SPARSE = [0, 7, 2 ** 20 - 1]   # codes at the top of the documented range: the histogram has 2^20 cells
+
+
 def jobs(tier):
     KM.warm()
     KM.kernel()
@@ -50,6 +53,11 @@ def jobs(tier):
                 pl += 1
             if cond == 'symmetry':
                 pl = min(n, 2)
+            if cond == 'sparse-codes':
+                for a in SPARSE:
+                    for b in SPARSE:
+                        out.append({'cond': cond, 'n': n, 'K': K, 'pins': {'x0': a, 'y0': b}, 'weight': K ** (2 * n), 'label': f'n={n},codes in {SPARSE},x0={a},y0={b}'})
+                continue
             for pins in hutil.product_pins([(f'x{i}', range(K)) for i in range(pl)]):
                 out.append({'cond': cond, 'n': n, 'K': K, 'pins': pins, 'weight': K ** (n - pl) * n, 'label': f'n={n},K={K},{pins}'})
     return out
@@ -61,9 +69,11 @@ def run_job(job):
     f = Kn['mutual_info_estimator_numba']
     st = {}
 
+    vals = SPARSE if cond == 'sparse-codes' else None
+
     def setup(ctx):
-        st['X'], st['Y'] = KM.declare_vectors(ctx, n, K, job['pins'])
-        st['ref'] = KM.ref_mi(st['X'], st['Y'], n, K)
+        st['X'], st['Y'] = KM.declare_vectors(ctx, n, K, job['pins'], vals=vals)
+        st['ref'] = KM.ref_mi(st['X'], st['Y'], n, K, vals=vals)
         if cond == 'corollaries':
             st['HX'] = KM.ref_entropy(st['X'], n, K)
             st['HY'] = KM.ref_entropy(st['Y'], n, K)
@@ -73,9 +83,9 @@ def run_job(job):
                 'X': [m.eval(v, model_completion=True).as_long() for v in st['X']]}
 
     def body(ctx, out):
-        Xa, Ya = KM.arrs(st['X'], st['Y'], K)
+        Xa, Ya = KM.arrs(st['X'], st['Y'], K, vals=vals)
         got = SReal.of(f(Ya, Xa, 1.0, False))
-        if cond == 'identity':
+        if cond in ('identity', 'sparse-codes'):
             out.never(ctx, got.z != st['ref'], wit, 'result != plug-in MI')
             # per-path translation validation: one witness of this path on the compiled kernel
             if not out.twin and ctx.check() == 'sat':
@@ -84,7 +94,9 @@ def run_job(job):
                 sym = KM.numeric(got.z, m)
                 real = KM.real_mi(w['Y'], w['X'])
                 out.validated += 1
-                if not KM.close(sym, real):
+                if real != real or real in (float('inf'), float('-inf')):
+                    out.candidates.append({'witness': dict(w, label='non-finite score on the compiled kernel')})
+                elif not KM.close(sym, real):
                     out.error = f'stand-in disagrees with the compiled kernel on {w}: symbolic {sym} vs real {real}'
                 out.sample({'Y': w['Y'], 'X': w['X'], 'score': real, 'decisions': len(ctx.trace)})
         elif cond == 'symmetry':
